@@ -942,3 +942,534 @@ Qed.
 Lemma dearmor_armor_run :
   forall (ws : list bytes), dearmor (armor_run ws) = Ok (concat ws, CleanEOF).
 Proof. intros ws. rewrite armor_run_spec. apply af_dearmor_armor_bytes. Qed.
+
+(** * Accepted texts are canonical up to [normalize] *)
+
+Lemma af_skip_drop : forall ls fin removed rest,
+  af_skip ls fin removed = Some rest ->
+  exists l, drop_leading_ws ls = l :: rest /\ strip_cr l = armor_header.
+Proof.
+  induction ls as [|l ls IH]; intros fin removed rest H; [discriminate H|].
+  cbn [af_skip] in H. cbn [drop_leading_ws].
+  destruct (af_line_ok l ls fin); [|discriminate H].
+  destruct (all_space (strip_cr l)).
+  - destruct (Nat.ltb max_whitespace (removed + length (strip_cr l) + 1)); [discriminate H|].
+    exact (IH _ _ _ H).
+  - destruct (bytes_eqb (strip_cr l) armor_header) eqn:E; [|discriminate H].
+    injection H as <-. apply bytes_eqb_eq in E. exists l. split; [reflexivity | exact E].
+Qed.
+
+Lemma af_body_line_inv : forall line x,
+  af_body_line line = Some x ->
+  length line <= columns /\ line <> [] /\ b64_enc_std x = line.
+Proof.
+  intros line x H. unfold af_body_line in H.
+  destruct (Nat.ltb columns (length line)) eqn:E1; [discriminate H|].
+  destruct (Nat.eqb (length line) 0) eqn:E2; [discriminate H|].
+  destruct (has_crlf line); [discriminate H|].
+  apply Nat.ltb_ge in E1. apply Nat.eqb_neq in E2.
+  split; [exact E1|]. split; [intros ->; apply E2; reflexivity|].
+  apply b64_std_enc_dec. exact H.
+Qed.
+
+Lemma af_armor_body_nil : armor_body [] = [].
+Proof. unfold armor_body. cbn [b64_enc_std]. rewrite af_chunks_nil. reflexivity. Qed.
+
+Lemma af_armor_body_short : forall x,
+  b64_enc_std x <> [] -> length (b64_enc_std x) <= columns ->
+  armor_body x = b64_enc_std x ++ [LF].
+Proof.
+  intros x H1 H2. unfold armor_body. rewrite af_chunks_short by assumption.
+  cbn [map concat]. apply app_nil_r.
+Qed.
+
+Lemma af_armor_body_full : forall x y, length x = line_bytes ->
+  armor_body (x ++ y) = (b64_enc_std x ++ [LF]) ++ armor_body y.
+Proof.
+  intros x y Hx. unfold armor_body.
+  rewrite (af_b64_app x y) by (rewrite Hx; reflexivity).
+  rewrite af_chunks_app; [reflexivity | unfold columns; lia |].
+  apply b64_enc_std_length_48. exact Hx.
+Qed.
+
+Lemma af_body_canon : forall ls b,
+  af_body ls SEof = (b, CleanEOF) ->
+  concat (map (fun l => l ++ [LF]) (upto_footer ls)) = armor_body b ++ armor_footer ++ [LF].
+Proof.
+  induction ls as [|l rest IH]; intros b H; [discriminate H|].
+  cbn [af_body] in H. cbn [upto_footer].
+  destruct (af_line_ok l rest SEof); [|discriminate H].
+  destruct (bytes_eqb (strip_cr l) armor_footer) eqn:Ef.
+  - injection H as <- _. apply bytes_eqb_eq in Ef. rewrite Ef.
+    cbn [map concat]. rewrite af_armor_body_nil, app_nil_r. reflexivity.
+  - destruct (af_body_line (strip_cr l)) as [x|] eqn:Eb; [|discriminate H].
+    destruct (af_body_line_inv _ _ Eb) as (Hl1 & Hl2 & Henc).
+    destruct (af_body_line_length _ _ Eb) as [Hx _].
+    destruct (Nat.ltb (length x) line_bytes) eqn:El.
+    + destruct rest as [|l2 rest2]; [discriminate H|].
+      rewrite af_get_line_cons in H.
+      destruct (af_line_ok l2 rest2 SEof); [|discriminate H].
+      destruct (bytes_eqb (strip_cr l2) armor_footer) eqn:Ef2; [|discriminate H].
+      injection H as <- _. cbn [upto_footer]. rewrite Ef2.
+      apply bytes_eqb_eq in Ef2. rewrite Ef2.
+      cbn [map concat]. rewrite app_nil_r.
+      rewrite af_armor_body_short by (rewrite Henc; assumption).
+      rewrite Henc. reflexivity.
+    + apply Nat.ltb_ge in El.
+      destruct (af_body rest SEof) as [b' o] eqn:Er.
+      injection H as Hb Ho. subst b o.
+      cbn [map concat]. rewrite (IH b' eq_refl).
+      rewrite af_armor_body_full by lia. rewrite Henc, <- !app_assoc. reflexivity.
+Qed.
+
+Lemma dearmor_canonical :
+  forall (t b : bytes), dearmor t = Ok (b, CleanEOF) -> normalize t = armor_bytes b.
+Proof.
+  intros t b H. unfold dearmor in H. rewrite af_dearmor_from_spec in H.
+  unfold af_dspec in H.
+  destruct (af_skip (split_on LF t) SEof 0) as [rest|] eqn:Es; [|discriminate H].
+  destruct (af_body rest SEof) as [b0 o0] eqn:Eb. cbn [fst snd] in H.
+  injection H as -> ->.
+  destruct (af_skip_drop _ _ _ _ Es) as (l & Hd & Hl).
+  unfold normalize. rewrite Hd. cbn [upto_footer]. rewrite Hl, af_header_neq_footer.
+  cbn [map concat]. rewrite (af_body_canon _ _ Eb).
+  unfold armor_bytes. rewrite <- !app_assoc. reflexivity.
+Qed.
+
+(** * The writer over an arbitrary downstream: how failures propagate *)
+
+Section WriterGeneric.
+  Variable D : Type.
+  Variable dw : D -> bytes -> D * bool.
+
+  (** what one encoder-level step guarantees *)
+  Definition af_post (a a' : awstate) (ok : bool) : Prop :=
+    aw_started a' = aw_started a /\ aw_closed a' = aw_closed a /\
+    (ok = false -> aw_eerr a' = true).
+
+  Lemma af_emit_post : forall a d text a' d' ok,
+    aw_emit D dw a d text = (a', d', ok) -> af_post a a' ok.
+  Proof.
+    intros a d text a' d' ok H. unfold aw_emit in H.
+    destruct (wrap_chunk (aw_col a) text) as [o c].
+    destruct (dw d o) as [d1 ok1]. injection H as <- _ <-.
+    unfold af_post. cbn [aw_started aw_closed aw_eerr].
+    repeat split. intros ->. reflexivity.
+  Qed.
+
+  Lemma af_interior_post : forall fuel p a d a' d' ok,
+    length p < fuel ->
+    aw_interior D dw fuel a d p = (a', d', ok) -> af_post a a' ok.
+  Proof.
+    induction fuel as [|f IH]; intros p a d a' d' ok Hf H; [lia|].
+    cbn [aw_interior] in H. destruct (Nat.ltb (length p) 3) eqn:E.
+    - injection H as <- _ <-. unfold af_post. cbn [aw_started aw_closed].
+      repeat split. discriminate.
+    - apply Nat.ltb_ge in E.
+      set (nn := if Nat.ltb (length p) b64_block
+                 then length p - Nat.modulo (length p) 3 else b64_block) in *.
+      assert (Hnn : 0 < nn).
+      { subst nn. destruct (Nat.ltb (length p) b64_block) eqn:E2;
+          [apply Nat.ltb_lt in E2 | apply Nat.ltb_ge in E2]; unfold b64_block in *; lia. }
+      destruct (aw_emit D dw a d (b64_enc_std (firstn nn p))) as [[a1 d1] ok1] eqn:E1.
+      apply af_emit_post in E1. destruct E1 as (S1 & C1 & F1).
+      destruct ok1.
+      + apply IH in H; [|rewrite skipn_length; lia].
+        destruct H as (S2 & C2 & F2). unfold af_post.
+        rewrite S2, C2, S1, C1. repeat split. exact F2.
+      + injection H as <- _ <-. unfold af_post. repeat split; assumption.
+  Qed.
+
+  Lemma af_enc_write_post : forall p a d a' d' ok,
+    aw_enc_write D dw a d p = (a', d', ok) -> af_post a a' ok.
+  Proof.
+    intros p a d a' d' ok H. unfold aw_enc_write in H.
+    destruct (aw_eerr a) eqn:He.
+    { injection H as <- _ <-. unfold af_post. repeat split. intros _. exact He. }
+    destruct (aw_carry a) as [|c0 cr] eqn:Ec.
+    { apply af_interior_post in H; [exact H | lia]. }
+    set (carry := c0 :: cr) in *.
+    set (k := Nat.min (3 - length carry) (length p)) in *.
+    destruct (Nat.ltb (length (carry ++ firstn k p)) 3).
+    { injection H as <- _ <-. unfold af_post. cbn [aw_started aw_closed].
+      repeat split. discriminate. }
+    destruct (aw_emit D dw a d (b64_enc_std (carry ++ firstn k p))) as [[a1 d1] ok1] eqn:E1.
+    apply af_emit_post in E1. destruct E1 as (S1 & C1 & F1).
+    destruct ok1.
+    - apply af_interior_post in H; [|lia].
+      destruct H as (S2 & C2 & F2). unfold af_post.
+      cbn [aw_started aw_closed] in S2, C2.
+      rewrite S2, C2, S1, C1. repeat split. exact F2.
+    - injection H as <- _ <-. unfold af_post. repeat split; assumption.
+  Qed.
+
+  Lemma af_write_started_post : forall p a d a' d' ok,
+    aw_started a = true -> aw_write D dw a d p = (a', d', ok) -> af_post a a' ok.
+  Proof.
+    intros p a d a' d' ok Hs H. unfold aw_write in H. rewrite Hs in H.
+    exact (af_enc_write_post _ _ _ _ _ _ H).
+  Qed.
+
+  Lemma af_write_eerr : forall p a d,
+    aw_started a = true -> aw_eerr a = true -> aw_write D dw a d p = (a, d, false).
+  Proof.
+    intros p a d Hs He. unfold aw_write, aw_enc_write. rewrite Hs, He. reflexivity.
+  Qed.
+
+  Lemma af_close_eerr : forall a d a' d' ok,
+    aw_started a = true -> aw_eerr a = true ->
+    aw_close D dw a d = (a', d', ok) -> ok = false.
+  Proof.
+    intros a d a' d' ok Hs He H. unfold aw_close in H.
+    destruct (aw_closed a); [injection H as _ _ <-; reflexivity|].
+    cbn [aw_started aw_closed aw_eerr aw_carry aw_col] in H.
+    rewrite Hs in H. cbn [negb] in H. rewrite He in H. cbn [negb] in H.
+    injection H as _ _ <-. reflexivity.
+  Qed.
+
+  Lemma af_close_unstarted : forall cy e col d,
+    aw_close D dw (mkAW false false cy e col) d =
+    let (d', ok) := dw d (armor_header ++ [LF]) in
+    if ok then aw_close D dw (mkAW true false cy e col) d'
+    else (mkAW false true cy e col, d', false).
+  Proof.
+    intros cy e col d. unfold aw_close.
+    cbn [aw_started aw_closed aw_eerr aw_carry aw_col].
+    destruct (dw d (armor_header ++ [LF])) as [d' ok]. destruct ok; reflexivity.
+  Qed.
+
+  (** ** Runs *)
+
+  Lemma af_run_acc : forall ws a d acc,
+    aw_run D dw a d ws acc =
+    let '(a', d', oks) := aw_run D dw a d ws [] in (a', d', acc ++ oks).
+  Proof.
+    induction ws as [|p ws IH]; intros a d acc.
+    - cbn [aw_run]. destruct (aw_close D dw a d) as [[a' d'] ok]. reflexivity.
+    - cbn [aw_run]. destruct (aw_write D dw a d p) as [[a1 d1] ok1].
+      rewrite IH. rewrite (IH a1 d1 ([] ++ [ok1])).
+      destruct (aw_run D dw a1 d1 ws []) as [[a' d'] oks].
+      rewrite <- app_assoc. reflexivity.
+  Qed.
+
+  Lemma af_run_nil : forall a d,
+    aw_run D dw a d [] [] = let '(a', d', ok) := aw_close D dw a d in (a', d', [ok]).
+  Proof. reflexivity. Qed.
+
+  Lemma af_run_cons : forall a d p ws,
+    aw_run D dw a d (p :: ws) [] =
+    let '(a1, d1, ok1) := aw_write D dw a d p in
+    let '(a', d', oks) := aw_run D dw a1 d1 ws [] in (a', d', ok1 :: oks).
+  Proof.
+    intros a d p ws. cbn [aw_run]. destruct (aw_write D dw a d p) as [[a1 d1] ok1].
+    rewrite af_run_acc. reflexivity.
+  Qed.
+
+  Lemma af_last_all_false : forall l,
+    Forall (fun b : bool => b = false) l -> last (false :: l) true = false.
+  Proof.
+    induction l as [|b l IH]; intros H; [reflexivity|].
+    inversion H as [|b0 l0 Hb Hl]; subst. exact (IH Hl).
+  Qed.
+
+  Lemma af_last_cons : forall (b : bool) l, l <> [] -> last (b :: l) true = last l true.
+  Proof. intros b [|c l] H; [contradiction | reflexivity]. Qed.
+
+  Lemma af_last_cons_false : forall l, last l true = false -> last (false :: l) true = false.
+  Proof. intros [|c l] H; [reflexivity | exact H]. Qed.
+
+  (** once the header is written: a failed operation sets the encoder's sticky
+      error, after which every operation, Close included, fails *)
+  Lemma af_run_started : forall ws a d a' d' oks,
+    aw_started a = true ->
+    aw_run D dw a d ws [] = (a', d', oks) ->
+    (aw_eerr a = true -> Forall (fun b => b = false) oks) /\
+    (Exists (fun b => b = false) oks -> last oks true = false).
+  Proof.
+    induction ws as [|p ws IH]; intros a d a' d' oks Hs H.
+    - rewrite af_run_nil in H.
+      destruct (aw_close D dw a d) as [[a1 d1] ok] eqn:Ec. injection H as _ _ <-.
+      split.
+      + intros He. rewrite (af_close_eerr _ _ _ _ _ Hs He Ec). constructor; [reflexivity|constructor].
+      + intros Hex. inversion Hex as [b l Hb|b l Hl]; subst; [reflexivity | inversion Hl].
+    - rewrite af_run_cons in H.
+      destruct (aw_write D dw a d p) as [[a1 d1] ok1] eqn:Ew.
+      destruct (aw_run D dw a1 d1 ws []) as [[a2 d2] oks'] eqn:Er.
+      injection H as _ _ <-.
+      destruct (af_write_started_post _ _ _ _ _ _ Hs Ew) as (S1 & _ & F1).
+      rewrite Hs in S1.
+      destruct (IH _ _ _ _ _ S1 Er) as [IH1 IH2].
+      split.
+      + intros He. rewrite (af_write_eerr p a d Hs He) in Ew. injection Ew as <- _ <-.
+        constructor; [reflexivity | exact (IH1 He)].
+      + intros Hex. destruct ok1.
+        * inversion Hex as [b l Hb|b l Hl]; subst; [discriminate Hb|].
+          rewrite af_last_cons; [exact (IH2 Hl)|]. intros ->. inversion Hl.
+        * apply af_last_all_false. apply IH1. apply F1. reflexivity.
+  Qed.
+
+  (** before the header is written *)
+  Lemma af_run_hdr_ok : forall ws d d1,
+    dw d (armor_header ++ [LF]) = (d1, true) ->
+    aw_run D dw aw_init d ws [] = aw_run D dw (mkAW true false [] false 0) d1 ws [].
+  Proof.
+    intros [|p ws] d d1 H.
+    - rewrite !af_run_nil. unfold aw_init. rewrite af_close_unstarted, H. reflexivity.
+    - rewrite !af_run_cons. unfold aw_write, aw_init.
+      cbn [aw_started aw_closed aw_eerr aw_carry aw_col]. rewrite H. reflexivity.
+  Qed.
+
+  Lemma af_run_hdr_fail_nil : forall d d1,
+    dw d (armor_header ++ [LF]) = (d1, false) ->
+    exists a', aw_run D dw aw_init d [] [] = (a', d1, [false]).
+  Proof.
+    intros d d1 H. rewrite af_run_nil. unfold aw_init.
+    rewrite af_close_unstarted, H. eexists. reflexivity.
+  Qed.
+
+  Lemma af_run_hdr_fail_cons : forall d d1 p ws,
+    dw d (armor_header ++ [LF]) = (d1, false) ->
+    aw_run D dw aw_init d (p :: ws) [] =
+    let '(a', d', oks) := aw_run D dw aw_init d1 ws [] in (a', d', false :: oks).
+  Proof.
+    intros d d1 p ws H. rewrite af_run_cons. unfold aw_write.
+    cbn [aw_init aw_started]. rewrite H. reflexivity.
+  Qed.
+End WriterGeneric.
+
+(** * The writer over a sink with a fault plan *)
+
+Lemma af_sink_write_ok : forall k p,
+  nth (k_calls k) (k_plan k) false = false ->
+  sink_write k p = (mkSink (k_acc k ++ p) (S (k_calls k)) (k_plan k) (k_fails k), true).
+Proof. intros k p H. unfold sink_write. rewrite H. reflexivity. Qed.
+
+Lemma af_sink_write_fail : forall k p,
+  nth (k_calls k) (k_plan k) false = true ->
+  sink_write k p = (mkSink (k_acc k) (S (k_calls k)) (k_plan k) (S (k_fails k)), false).
+Proof. intros k p H. unfold sink_write. rewrite H. reflexivity. Qed.
+
+Lemma af_sink_write_true : forall k p k',
+  sink_write k p = (k', true) -> k_acc k' = k_acc k ++ p /\ k_fails k' = k_fails k.
+Proof.
+  intros k p k' H. unfold sink_write in H.
+  destruct (nth (k_calls k) (k_plan k) false); [discriminate H|].
+  injection H as <-. split; reflexivity.
+Qed.
+
+(** ** A successful operation on the sink is the same operation on the
+    all-accepting downstream *)
+
+Lemma af_sim_emit : forall a k text a' k',
+  aw_emit sink sink_write a k text = (a', k', true) ->
+  aw_emit bytes af_W a (k_acc k) text = (a', k_acc k', true) /\ k_fails k' = k_fails k.
+Proof.
+  intros a k text a' k' H. unfold aw_emit in *.
+  destruct (wrap_chunk (aw_col a) text) as [o c].
+  destruct (sink_write k o) as [k1 ok1] eqn:E. injection H as <- <- ->.
+  apply af_sink_write_true in E. destruct E as [-> ->]. split; reflexivity.
+Qed.
+
+Lemma af_sim_interior : forall fuel a k p a' k',
+  aw_interior sink sink_write fuel a k p = (a', k', true) ->
+  aw_interior bytes af_W fuel a (k_acc k) p = (a', k_acc k', true) /\ k_fails k' = k_fails k.
+Proof.
+  induction fuel as [|f IH]; intros a k p a' k' H; [discriminate H|].
+  cbn [aw_interior] in *. destruct (Nat.ltb (length p) 3).
+  - injection H as <- <-. split; reflexivity.
+  - set (nn := if Nat.ltb (length p) b64_block
+               then length p - Nat.modulo (length p) 3 else b64_block) in *.
+    destruct (aw_emit sink sink_write a k (b64_enc_std (firstn nn p))) as [[a1 k1] ok1] eqn:E1.
+    destruct ok1; [|discriminate H].
+    apply af_sim_emit in E1. destruct E1 as [E1 F1]. rewrite E1.
+    apply IH in H. destruct H as [H F]. rewrite H. split; [reflexivity | congruence].
+Qed.
+
+Lemma af_sim_enc_write : forall a k p a' k',
+  aw_enc_write sink sink_write a k p = (a', k', true) ->
+  aw_enc_write bytes af_W a (k_acc k) p = (a', k_acc k', true) /\ k_fails k' = k_fails k.
+Proof.
+  intros a k p a' k' H. unfold aw_enc_write in *.
+  destruct (aw_eerr a); [discriminate H|].
+  destruct (aw_carry a) as [|c0 cr].
+  { exact (af_sim_interior _ _ _ _ _ _ H). }
+  set (carry := c0 :: cr) in *.
+  set (kk := Nat.min (3 - length carry) (length p)) in *.
+  destruct (Nat.ltb (length (carry ++ firstn kk p)) 3).
+  { injection H as <- <-. split; reflexivity. }
+  destruct (aw_emit sink sink_write a k (b64_enc_std (carry ++ firstn kk p)))
+    as [[a1 k1] ok1] eqn:E1.
+  destruct ok1; [|discriminate H].
+  apply af_sim_emit in E1. destruct E1 as [E1 F1]. rewrite E1.
+  apply af_sim_interior in H. destruct H as [H F]. rewrite H.
+  split; [reflexivity | congruence].
+Qed.
+
+Lemma af_sim_write : forall a k p a' k',
+  aw_write sink sink_write a k p = (a', k', true) ->
+  aw_write bytes af_W a (k_acc k) p = (a', k_acc k', true) /\ k_fails k' = k_fails k.
+Proof.
+  intros a k p a' k' H. unfold aw_write in *. destruct (aw_started a).
+  { exact (af_sim_enc_write _ _ _ _ _ H). }
+  destruct (sink_write k (armor_header ++ [LF])) as [k1 ok1] eqn:E.
+  destruct ok1; [|discriminate H].
+  apply af_sink_write_true in E. destruct E as [Ea Ef].
+  apply af_sim_enc_write in H. destruct H as [H F].
+  rewrite <- Ea, H. split; [reflexivity | congruence].
+Qed.
+
+Lemma af_sim_close_started : forall c cy e col k a' k',
+  aw_close sink sink_write (mkAW true c cy e col) k = (a', k', true) ->
+  aw_close bytes af_W (mkAW true c cy e col) (k_acc k) = (a', k_acc k', true) /\
+  k_fails k' = k_fails k.
+Proof.
+  intros c cy e col k a' k' H. unfold aw_close in *.
+  cbn [aw_started aw_closed aw_eerr aw_carry aw_col negb] in *.
+  destruct c; [discriminate H|]. destruct e; [discriminate H|].
+  destruct cy as [|c1 cy].
+  - cbn [negb] in *.
+    destruct (sink_write k _) as [k3 ok3] eqn:E3 in H. injection H as <- <- ->.
+    apply af_sink_write_true in E3. destruct E3 as [-> ->]. split; reflexivity.
+  - destruct (aw_emit sink sink_write _ k _) as [[a1 k1] ok1] eqn:E1 in H.
+    destruct ok1; [|discriminate H].
+    apply af_sim_emit in E1. destruct E1 as [E1 F1]. rewrite E1.
+    cbn [aw_started aw_closed aw_eerr aw_carry aw_col negb] in *.
+    destruct (sink_write k1 _) as [k3 ok3] eqn:E3 in H. injection H as <- <- ->.
+    apply af_sink_write_true in E3. destruct E3 as [-> ->].
+    split; [reflexivity | congruence].
+Qed.
+
+Lemma af_sim_close : forall a k a' k',
+  aw_close sink sink_write a k = (a', k', true) ->
+  aw_close bytes af_W a (k_acc k) = (a', k_acc k', true) /\ k_fails k' = k_fails k.
+Proof.
+  intros [s c cy e col] k a' k' H. destruct s.
+  { exact (af_sim_close_started _ _ _ _ _ _ _ H). }
+  destruct c.
+  { unfold aw_close in H. cbn [aw_closed] in H. discriminate H. }
+  rewrite af_close_unstarted in *.
+  destruct (sink_write k (armor_header ++ [LF])) as [k1 ok1] eqn:E.
+  destruct ok1; [|discriminate H].
+  apply af_sink_write_true in E. destruct E as [Ea Ef].
+  apply af_sim_close_started in H. destruct H as [H F].
+  rewrite <- Ea, H. split; [reflexivity | congruence].
+Qed.
+
+Lemma af_sim_run : forall ws a k a' k' oks,
+  aw_run sink sink_write a k ws [] = (a', k', oks) ->
+  Forall (fun b => b = true) oks ->
+  aw_run bytes af_W a (k_acc k) ws [] = (a', k_acc k', oks) /\ k_fails k' = k_fails k.
+Proof.
+  induction ws as [|p ws IH]; intros a k a' k' oks H Hall.
+  - rewrite af_run_nil in *.
+    destruct (aw_close sink sink_write a k) as [[a1 k1] ok] eqn:Ec.
+    injection H as <- <- <-. inversion Hall as [|b l Hb Hl]; subst.
+    apply af_sim_close in Ec. destruct Ec as [-> F]. split; [reflexivity | exact F].
+  - rewrite af_run_cons in *.
+    destruct (aw_write sink sink_write a k p) as [[a1 k1] ok1] eqn:Ew.
+    destruct (aw_run sink sink_write a1 k1 ws []) as [[a2 k2] oks'] eqn:Er.
+    injection H as <- <- <-. inversion Hall as [|b l Hb Hl]; subst.
+    apply af_sim_write in Ew. destruct Ew as [-> F1].
+    destruct (IH _ _ _ _ _ Er Hl) as [-> F2]. split; [reflexivity | congruence].
+Qed.
+
+(** ** Before the header is written: the first [h] downstream calls fail *)
+
+Lemma af_run_unstarted : forall ws h k a' k' oks,
+  k_calls k <= h ->
+  (forall i, i < h -> nth i (k_plan k) false = true) ->
+  nth h (k_plan k) false = false ->
+  aw_run sink sink_write aw_init k ws [] = (a', k', oks) ->
+  Forall (fun b => b = false) (firstn (h - k_calls k) oks) /\
+  (Exists (fun b => b = false) (skipn (h - k_calls k) oks) -> last oks true = false).
+Proof.
+  induction ws as [|p ws IH]; intros h k a' k' oks Hc Hpre Hh H.
+  - destruct (Nat.eq_dec (k_calls k) h) as [Heq|Hne].
+    + rewrite Heq, Nat.sub_diag. cbn [firstn skipn]. split; [constructor|].
+      rewrite (af_run_hdr_ok _ _ [] k _ (af_sink_write_ok k _ ltac:(rewrite Heq; exact Hh))) in H.
+      exact (proj2 (af_run_started _ _ _ af_a0 _ _ _ _ eq_refl H)).
+    + assert (Hf : nth (k_calls k) (k_plan k) false = true) by (apply Hpre; lia).
+      destruct (af_run_hdr_fail_nil _ _ k _ (af_sink_write_fail k _ Hf)) as (a1 & E).
+      rewrite E in H. injection H as _ _ <-.
+      split; [|intros _; reflexivity].
+      destruct (h - k_calls k) as [|m]; cbn [firstn]; [constructor|].
+      rewrite firstn_nil. constructor; [reflexivity | constructor].
+  - destruct (Nat.eq_dec (k_calls k) h) as [Heq|Hne].
+    + rewrite Heq, Nat.sub_diag. cbn [firstn skipn]. split; [constructor|].
+      rewrite (af_run_hdr_ok _ _ (p :: ws) k _
+                 (af_sink_write_ok k _ ltac:(rewrite Heq; exact Hh))) in H.
+      exact (proj2 (af_run_started _ _ _ af_a0 _ _ _ _ eq_refl H)).
+    + assert (Hf : nth (k_calls k) (k_plan k) false = true) by (apply Hpre; lia).
+      rewrite (af_run_hdr_fail_cons _ _ k _ p ws (af_sink_write_fail k _ Hf)) in H.
+      match type of H with context [aw_run _ _ _ ?k1 ws []] => set (k1' := k1) in * end.
+      destruct (aw_run sink sink_write aw_init k1' ws []) as [[a2 k2] oks'] eqn:Er.
+      injection H as _ _ <-.
+      destruct (IH h k1' a2 k2 oks') as [IH1 IH2];
+        [subst k1'; cbn [k_calls]; lia | exact Hpre | exact Hh | exact Er |].
+      replace (h - k_calls k) with (S (h - k_calls k1')) by (subst k1'; cbn [k_calls]; lia).
+      cbn [firstn skipn]. split.
+      * constructor; [reflexivity | exact IH1].
+      * intros Hex. apply af_last_cons_false. exact (IH2 Hex).
+Qed.
+
+Lemma af_all_true_or_nth : forall oks : list bool,
+  Forall (fun b => b = true) oks \/ exists i, nth i oks true = false.
+Proof.
+  induction oks as [|b oks IH]; [left; constructor|].
+  destruct b.
+  - destruct IH as [IH|[i Hi]]; [left; constructor; [reflexivity|exact IH]|].
+    right. exists (S i). exact Hi.
+  - right. exists 0. reflexivity.
+Qed.
+
+(** ** The destination-fault theorem.
+
+    The third conjunct originally proposed,
+      [Exists (fun b => b = false) oks -> last oks true = false],
+    is FALSE of the model (see [armor_write_faults_close_refuted] below): a
+    Write whose header write fails leaves the writer untouched, the next
+    operation retries the header, and Close can then succeed.  The true
+    statement: if the first [h] downstream calls fail and call [h] succeeds,
+    the first [h] operations fail, and any failure from operation [h] on is
+    final (Close fails). *)
+Lemma armor_write_faults :
+  forall (ws : list bytes) (plan : list bool) (a : awstate) (k : sink) (oks : list bool),
+    aw_run sink sink_write aw_init (empty_sink plan) ws [] = (a, k, oks) ->
+    (Forall (fun b => b = true) oks -> k_fails k = 0 /\ k_acc k = armor_bytes (concat ws)) /\
+    (k_fails k > 0 -> exists i, nth i oks true = false) /\
+    (forall h, (forall i, i < h -> nth i plan false = true) -> nth h plan false = false ->
+       Forall (fun b => b = false) (firstn h oks) /\
+       (Exists (fun b => b = false) (skipn h oks) -> last oks true = false)).
+Proof.
+  intros ws plan a k oks H.
+  assert (H1 : Forall (fun b => b = true) oks ->
+               k_fails k = 0 /\ k_acc k = armor_bytes (concat ws)).
+  { intros Hall. destruct (af_sim_run _ _ _ _ _ _ H Hall) as [Hr Hf].
+    split; [exact Hf|].
+    rewrite <- armor_run_spec. unfold armor_run.
+    change (k_acc (empty_sink plan)) with (@nil byte) in Hr. rewrite Hr. reflexivity. }
+  split; [exact H1|]. split.
+  - intros Hpos. destruct (af_all_true_or_nth oks) as [Hall|Hex]; [|exact Hex].
+    destruct (H1 Hall) as [H0 _]. lia.
+  - intros h Hpre Hh.
+    pose proof (af_run_unstarted ws h (empty_sink plan) a k oks) as Hu.
+    cbn [empty_sink k_calls k_plan] in Hu. rewrite Nat.sub_0_r in Hu.
+    apply Hu; [lia | exact Hpre | exact Hh | exact H].
+Qed.
+
+(** The counterexample to the original third conjunct: two one-byte writes,
+    the first downstream call (the header write of the first Write) fails.
+    The first Write fails, the second Write and Close succeed, and the sink
+    holds a complete, valid armor of the SECOND write's data only. *)
+Lemma armor_write_faults_close_refuted :
+  exists (ws : list bytes) (plan : list bool) (a : awstate) (k : sink) (oks : list bool),
+    aw_run sink sink_write aw_init (empty_sink plan) ws [] = (a, k, oks) /\
+    ws = [[x41]; [x42]] /\ plan = [true] /\ oks = [false; true; true] /\
+    Exists (fun b => b = false) oks /\ last oks true = true /\
+    dearmor (k_acc k) = Ok ([x42], CleanEOF).
+Proof.
+  eexists [[x41]; [x42]], [true], _, _, _.
+  split; [vm_compute; reflexivity|].
+  repeat split; try reflexivity.
+  left. reflexivity.
+Qed.
